@@ -197,6 +197,126 @@ def _name_return(text, toks, fn_idx, body_open):
     return text
 
 
+
+def find_inlinable(unit, name):
+    """Look for `fn NAME(...)  { body }` in the unit's sources.  Returns dict(params=[names], has_self, body, file, line)
+    when the body can be pasted at a call site without changing its meaning: no `return`, no `?`, no `await`, no macro
+    that hides control flow other than the logging/assert ones.  Otherwise None."""
+    for alias, S in unit.sources.items():
+        toks = S.toks
+        for i, t in enumerate(toks):
+            if t.kind == 'ident' and t.text == 'fn' and i + 1 < len(toks) and toks[i + 1].text == name:
+                # parameter list
+                j = i + 2
+                if toks[j].text == '<':
+                    return None  # generic helper: not inlined
+                if toks[j].text != '(':
+                    continue
+                jc = match_close(toks, j)
+                ptext = S.text[toks[j].end:toks[jc].start]
+                bo = first_brace_at_depth0(toks, jc + 1)
+                if bo is None:
+                    continue
+                bc = match_close(toks, bo)
+                body_toks = toks[bo + 1:bc]
+                if any(bt.kind == 'ident' and bt.text in ('return', 'await', 'loop', 'while', 'for', 'break', 'continue') for bt in body_toks):
+                    return None
+                if any(bt.kind == 'punct' and bt.text == '?' for bt in body_toks):
+                    return None
+                params = []
+                has_self = False
+                depth = 0
+                cur = ''
+                for ch in ptext + ',':
+                    if ch in '([<{':
+                        depth += 1
+                    elif ch in ')]>}':
+                        depth -= 1
+                    if ch == ',' and depth == 0:
+                        c = cur.strip()
+                        cur = ''
+                        if not c:
+                            continue
+                        if re.match(r'^(&\s*(mut\s+)?|mut\s+)?self$', c):
+                            has_self = True
+                            continue
+                        m = re.match(r'^(?:mut\s+)?(\w+)\s*:', c)
+                        if not m:
+                            return None
+                        params.append(m.group(1))
+                    else:
+                        cur += ch
+                # body text without comments, on one line
+                # the body's own text, comments dropped, on one line (so that the unit's rewrite rules still apply to it)
+                body = ''
+                prev_end = toks[bo].end
+                for bt in body_toks:
+                    gap = S.text[prev_end:bt.start]
+                    body += (' ' if gap.strip() or '\n' in gap or gap else '') + bt.text if gap else bt.text
+                    prev_end = bt.end
+                body = body.strip()
+                return dict(params=params, has_self=has_self, body=body, file=S.path, line=S.line_of(t.start))
+    return None
+
+
+def apply_inline(text, name, info):
+    """replace calls of NAME in `text` by the helper's body (a block expression), keeping the line count"""
+    n_apps = 0
+    def split_args(a):
+        out, depth, cur = [], 0, ''
+        for ch in a + ',':
+            if ch in '([{':
+                depth += 1
+            elif ch in ')]}':
+                depth -= 1
+            if ch == ',' and depth == 0:
+                if cur.strip():
+                    out.append(cur.strip())
+                cur = ''
+            else:
+                cur += ch
+        return out
+    if info['has_self']:
+        rx = re.compile(r'(\b[A-Za-z_]\w*(?:\s*\.\s*[A-Za-z_]\w*)*)\s*\.\s*%s\s*\(' % re.escape(name))
+    else:
+        rx = re.compile(r'(?<![\w.])((?:\w+::)*)%s\s*\(' % re.escape(name))
+    pos = 0
+    out = ''
+    while True:
+        m = rx.search(text, pos)
+        if not m:
+            out += text[pos:]
+            break
+        # skip the definition itself (`fn NAME(`)
+        if re.search(r'\bfn\s*$', text[max(0, m.start() - 4):m.start()] + ' ') and not info['has_self']:
+            out += text[pos:m.end()]
+            pos = m.end()
+            continue
+        # find the matching close paren
+        depth, k = 1, m.end()
+        while k < len(text) and depth:
+            if text[k] in '([{':
+                depth += 1
+            elif text[k] in ')]}':
+                depth -= 1
+            k += 1
+        args = split_args(text[m.end():k - 1])
+        if len(args) != len(info['params']):
+            raise ExtractError('inline %s: %d arguments for %d parameters' % (name, len(args), len(info['params'])))
+        body = info['body']
+        if info['has_self']:
+            recv = ''.join(m.group(1).split())
+            body = re.sub(r'\bself\b', recv, body)
+        binds = ''.join('let %s = %s; ' % (pn, a) for pn, a in zip(info['params'], args))
+        repl = '{ ' + binds + body + ' }'
+        orig = text[m.start():k]
+        repl += '\n' * orig.count('\n')
+        out += text[pos:m.start()] + repl
+        pos = k
+        n_apps += 1
+    return out, n_apps
+
+
 def build_func(unit, f, grws):
     """Return list of Piece for this function."""
     src = unit.src(f.alias)
@@ -266,6 +386,10 @@ def build_func(unit, f, grws):
         if n != 1 or new.count('\n') != text.count('\n'):
             raise ExtractError('mutant does not apply to %s' % where)
         text = new
+    for iname, iinfo in getattr(unit, 'inlines', []):
+        text, napp = apply_inline(text, iname, iinfo)
+        if napp:
+            unit.rule_counts['R-inline:' + iname] = unit.rule_counts.get('R-inline:' + iname, 0) + napp
     for rule, rx, repl, opts in grws:
         text = _apply_rw(unit, f, text, rule, rx, repl, {k: v for k, v in opts.items() if k not in ('min', 'max')}, where)
     for rule, rx, repl, opts in f.rws:
@@ -515,9 +639,14 @@ class _HeaderList(list):
 LABEL_RE = re.compile(r'//\s*\[([C0-9 ]+)\]\s*(\S+)')
 
 
-def assemble(tmpl_path, out_path, mutation=None):
+def assemble(tmpl_path, out_path, mutation=None, inlines=None):
     """mutation: (fn outname, regex, repl) applied to that function's raw text."""
     unit, out, grws = parse_template(tmpl_path)
+    unit.inlines = []
+    for nm in (inlines or []):
+        info = find_inlinable(unit, nm)
+        if info:
+            unit.inlines.append((nm, info))
     if mutation:
         hit = [f for f in unit.funcs if f.outname == mutation[0]]
         if len(hit) != 1:
